@@ -274,3 +274,8 @@ def st_history(be, hiN):
 
 FACETS.append(Facet('np/map-histories', f_history, strategy=lambda t: st_history('np', 4), examples={'quick': 1200, 'thorough': 50000}, shards={'quick': 2, 'thorough': 8}))
 FACETS.append(Facet('torch/map-histories', f_history, strategy=lambda t: st_history('torch', 3), examples={'quick': 150, 'thorough': 6000}, shards={'quick': 1, 'thorough': 4}, backend='torch'))
+
+
+from checks import large as _large
+FACETS.append(Facet('np/large-N', _large.f_algebra_large, strategy=lambda t: _large.st_algebra('np', ['compose', 'inverse'], sizes=(12, 31, 32, 33, 64, 65)), examples={'quick': 40, 'thorough': 2000}))
+FACETS.append(Facet('torch/large-N', _large.f_algebra_large, strategy=lambda t: _large.st_algebra('torch', ['compose', 'inverse'], sizes=(12, 31, 33)), examples={'quick': 8, 'thorough': 300}, backend='torch'))
